@@ -152,3 +152,102 @@ def expected_get(support, a):
         if va <= a < va + l:
             return va
     return None
+
+
+# ---------------------------------------------------------------------------------------
+# histories on one sweep object (getblock / iterblocks interleaved with graph insertions)
+# ---------------------------------------------------------------------------------------
+
+def expected_runs(path, k0, complete):
+    """the basic blocks of the sweep started at path[k0]: maximal runs ending at a block end; the
+    trailing run without a block end only counts when the stream is known to stop there.
+    returns list of (s, e) index pairs."""
+    runs, s, prev = [], k0, False
+    for j in range(k0, len(path)):
+        d = path[j]
+        if ends_block(prev, d):
+            runs.append((s, j + 1))
+            s, prev = j + 1, False
+        else:
+            prev = prev or d[3]
+    if complete and s < len(path):
+        runs.append((s, len(path)))
+    return runs
+
+
+def check_handed(path, complete, loc, blocks, props, exhausted, asked):
+    """blocks (lists of dumps) handed out by one getblock/iterblocks call started at address `loc`,
+    judged against the instruction stream `path` (independent reader walk).  `asked`: number of
+    blocks requested.  returns list of problems (first = the aspect)."""
+    idx = {d[0]: k for k, d in enumerate(path)}
+    if loc not in idx:
+        return [] if not blocks or not complete else ["block-off-stream"]
+    exp = expected_runs(path, idx[loc], complete)
+    bad = []
+    for k, b in enumerate(blocks):
+        if k >= len(exp):
+            if complete:
+                bad.append("block-beyond-stream")
+            break
+        s, e = exp[k]
+        want = path[s:e]
+        if b != want:
+            if b == want[: len(b)]:
+                bad.append("block-too-short" if b else "empty-block")
+            elif b[: len(want)] == want:
+                bad.append("block-too-long")
+            elif b and b[0][0] != want[0][0]:
+                bad.append("block-wrong-start")
+            else:
+                bad.append("block-differs-from-stream")
+            break
+        sup, length, raw = props[k]
+        if sup != blk_support(want):
+            bad.append("bad-support")
+        if length != sum(ilen(d) for d in want):
+            bad.append("bad-length")
+        if raw != blk_raw(want):
+            bad.append("bad-raw")
+        if bad:
+            break
+    if not bad:
+        if complete and len(blocks) < min(asked, len(exp)):
+            bad.append("blocks-missing")
+        if complete and exhausted and len(blocks) != len(exp):
+            bad.append("blocks-missing")
+    return bad
+
+
+def judge_sweep_history(path, complete, ops, steps):
+    """property oracle for one history.  returns None or (aspect, context, op index, detail)."""
+    A = [d[0] for d in path] + [path[-1][0] + ilen(path[-1])]
+    idx = {a: k for k, a in enumerate(A)}
+    hists, off = {}, set()
+    for k, st in enumerate(steps):
+        op = ops[k]
+        call = "iterblocks" if op[0] == "ib" else "getblock"
+        if st["res"] == "unmodelled":
+            return None
+        if st["res"] != "ok":
+            return ("%s:raise:%s" % (call, st["exc"]), "", k, st.get("msg", ""))
+        ctx = "repeat-after-cut" if st["cut_before"] else ("repeat" if st["repeat"] else "first-call")
+        asked = op[3] if op[0] == "ib" else 1
+        bad = check_handed(path, complete, op[1], st["blocks"], st["props"], st["exhausted"], asked)
+        if bad:
+            return ("%s:%s" % (call, bad[0]), ctx, k, ",".join(bad))
+        for rec in st["ins"]:
+            g = rec["g"]
+            if g in off or rec["first"] not in idx or idx[rec["first"]] + rec["n"] > len(A) - 1:
+                off.add(g)           # a block beyond the known part of the stream went in: this graph is not judged any more
+                continue
+            s = idx[rec["first"]]
+            h = hists.setdefault(g, [])
+            h.append((s, s + rec["n"]))
+            bad = check_partition(A, h, rec["support"], rec["edges"])
+            if rec["overlay"]:
+                bad.append("overlay-used")
+            if rec["vertices"] != [x[0] for x in rec["support"]]:
+                bad.append("vertex-not-in-support")
+            if bad:
+                return ("add_vertex:%s" % bad[0], "graph-%s" % ("own" if g == "G" else "fresh"), k, ",".join(bad))
+    return None
